@@ -848,7 +848,13 @@ fn withdrawal_redeemer_index(
         .map(|(cred, _)| cred.as_slice())
         .collect::<Vec<_>>();
 
-    keys.sort();
+    // the ledger orders reward accounts by network, then script credentials before key
+    // credentials, then by hash: not by the bytes of the account (a key account's header
+    // 0xe_ is below a script account's 0xf_)
+    keys.sort_by_key(|account| match account.split_first() {
+        Some((header, hash)) => (header & 0x0f, header & 0x10 == 0, hash.to_vec()),
+        None => (0, false, Vec::new()),
+    });
     keys.dedup();
 
     let credential = adhoc
